@@ -6,6 +6,7 @@ import GE.Model.ExprGen
 import GE.Model.ExprSExp
 import GE.Model.SubExpr
 import GE.Model.TagGen
+import GE.Model.Group
 /-!
 Model driver: one request per line (`op TAB field…`), one answer line per request.
 Unknown ops answer `bad-op` (never defaulted).
@@ -80,6 +81,9 @@ def step (fs : List String) : String :=
       let sc := parseScopes scopes
       let items := (GE.TagGen.prepareAll sc cs 0).1
       esc (GE.Gen.spellStmts (GE.TagGen.selStmts items)) ++ "\t" ++ esc (GE.Gen.spellAll (GE.TagGen.selToks items 0))
+  | "sort_keys" :: keys =>
+    let es := keys.map fun k => ({ key := k.toList.map Char.toNat, code := k } : GE.Group.Entry)
+    String.intercalate "\t" ((GE.Group.ordered es).map fun e => esc e.code)
   | ["dash_camel", s] => esc (str (GE.TagGen.dashToCamel (chars s)))
   | ["data_hyphen", s] => esc (str (GE.TagGen.dataHyphenName (chars s)))
   | ["expr_gen", sx, scopes] =>
